@@ -28,11 +28,11 @@ prop("C03",
      harness="c03_projmatrix",
      runs={
          "quick": [dict(flavour="asan", cases=2000), dict(flavour="rel", cases=16000)],
-         "thorough": [dict(flavour="asan", cases=20000), dict(flavour="rel", cases=300000)],
+         "thorough": [dict(flavour="asan", cases=15000), dict(flavour="rel", cases=240000)],
      },
      min_nontrivial={"quick": 5000, "thorough": 80000},
      min_obs={"quick": _min_obs_quick,
-              "thorough": {k: 10 * v for k, v in _min_obs_quick.items()}},
+              "thorough": {k: 8 * v for k, v in _min_obs_quick.items()}},
      rule=("case = one generated configuration: small cylindrical scanner (8..40/64 detectors, 1..5/6 rings, optional TOF / intrinsic "
            "tilt) x non-arc-corrected sampling (span odd/even/mixed, max ring difference, view mashing, truncated tangential and "
            "segment range) x image grid (3..13 voxels in x and y, odd and even, square and anisotropic, z voxel = ring spacing/{1,2,4} "
@@ -64,6 +64,9 @@ prop("C03",
                  "use_actual_detector_boundaries, arc-corrected and blocks/generic geometries are not exercised"),
      assumptions=["scanner radius 40..150 mm and ring spacing >= 3 mm keep tan(theta) of oblique segments >= 0.009 so that float32 "
                   "rounding of a ray's z position, amplified by 1/tan(theta), stays two orders of magnitude below the comparison band",
+                  "x and y voxel sizes are either identical or differ by >= 5% (DataSymmetriesForBins_PET_CartesianGrid deliberately "
+                  "treats grids with |vx-vy| <= 2e-3 mm as square) and an intrinsic tilt is either 0 or >= 0.01 rad (below 1e-4 rad the "
+                  "library keeps the rotational symmetries)",
                   "x/y image origin is 0 (ProjMatrixByBinUsingRayTracing::set_up rejects anything else) and the z-origin is a whole "
                   "number of planes (DataSymmetriesForBins_PET_CartesianGrid rejects anything else)",
                   "the 'other geometry' of a re-set_up differs from the first by more than the 0.05 mm / 0.05 rad tolerances that "
